@@ -175,10 +175,18 @@ class Histogram1D(ObjectWithBinning, HistogramBase):
         else:
             self._stats = stats or INVALID_STATISTICS
 
+        # Underflow / overflow can be unknown (NaN), e.g. for inconsecutive bins,
+        # which integer types cannot express.
         if self.keep_missed:
-            self._missed = np.array(missed, dtype=self.dtype)
+            self._missed = np.array(missed, dtype=self._missed_dtype(self.dtype))
         else:
-            self._missed = np.zeros(3, dtype=self.dtype)
+            self._missed = np.zeros(3, dtype=self._missed_dtype(self.dtype))
+
+    @staticmethod
+    def _missed_dtype(dtype: DTypeLike) -> np.dtype:
+        """Type of the under-/overflow counters for a given content type."""
+        dtype = np.dtype(dtype)
+        return dtype if dtype.kind == "f" else np.dtype(np.float64)
 
     def copy(self, *, include_frequencies: bool = True) -> "Histogram1D":
         # Overriden to include the statistics as well
